@@ -144,7 +144,7 @@ func init() {
 				if !ok {
 					continue
 				}
-				for _, path := range []string{"cache", "store", "hfp", "post"} {
+				for _, path := range []string{"cache", "store", "hfp", "post", "head-first"} {
 					for ci, ae := range clients {
 						if !c.Thorough() && path != "cache" && (ci == 4 || ci >= 6) {
 							continue // quick: 5 representative clients on the non-hit paths
@@ -160,7 +160,7 @@ func init() {
 						freshCaches(scfg)
 						vtime.Set(vtime.Base)
 						oo := o
-						oo.Cache = path == "cache" || path == "store"
+						oo.Cache = path == "cache" || path == "store" || path == "head-first"
 						oresp, _ = oo.resp()
 						e.Respond = func(oc *env.OriginCall) env.OriginResp { return oresp }
 						e.Events()
@@ -183,6 +183,8 @@ func init() {
 							steps = append(steps, step{"HEAD", ae, "HEAD fetch"}, step{"HEAD", ae, "HEAD hit"})
 						case "store":
 							steps = append(steps, step{"GET", clients[(ci+1)%len(clients)], "fetching request"}, step{"restart", "", ""}, step{"GET", ae, "hit restored from store"}, step{"GET", clients[(ci+2)%len(clients)], "hit after restore"})
+						case "head-first":
+							steps = append(steps, step{"HEAD", ae, "HEAD fetching request"}, step{"HEAD", ae, "HEAD hit"}, step{"GET", ae, "GET after HEAD"}, step{"GET", clients[(ci+1)%len(clients)], "GET hit after HEAD"}, step{"HEAD", ae, "HEAD after GET"})
 						case "hfp":
 							steps = append(steps, step{"GET", ae, "fetching request (uncacheable)"}, step{"GET", ae, "hit-for-pass"})
 						case "post":
